@@ -5,6 +5,7 @@ import (
 	"encoding/hex"
 	"fmt"
 
+	"github.com/contiv/libOpenflow/common"
 	of "github.com/contiv/libOpenflow/openflow13"
 	"github.com/contiv/libOpenflow/util"
 
@@ -12,6 +13,7 @@ import (
 	"vh/gen"
 	"vh/prng"
 	"vh/rec"
+	"vh/sched"
 	"vh/spec"
 )
 
@@ -53,10 +55,13 @@ func c07Gen(tier string, seed uint64, i int) any {
 	if i%97 == 0 {
 		return &c07Case{Mode: "tiny", Side: fmt.Sprint(i / 97)}
 	}
+	if i%13 == 5 { // hostile frames through a real MessageStream: a crash or a wedge there takes the controller down
+		return &c07Case{Mode: "stream", Side: "switch", Recipe: switchRecipe(7, seed, i)}
+	}
 	if i%2 == 0 {
 		return &c07Case{Mode: "base", Side: "switch", Recipe: switchRecipe(7, seed, i)}
 	}
-	return &c07Case{Mode: "base", Side: "ctrl", Recipe: ctrlRecipe(7, tier, seed, i)}
+	return &c07Case{Mode: "base", Side: "ctrl", Recipe: withBundleProps(prng.Derive(seed, 70, uint64(i)), ctrlRecipe(7, tier, seed, i))}
 }
 
 func ofFix(b []byte) {
@@ -207,6 +212,10 @@ func c07Eval(c *fw.Ctx, data any) {
 		c.Count("bases_skipped", 1)
 		return
 	}
+	if cs.Mode == "stream" {
+		c07Stream(c, cs, base)
+		return
+	}
 	c.Count("bases", 1)
 	c.Set("base_kinds", cs.Side+":"+kindOf(cs.Recipe))
 	c.Max("max_base_len", int64(len(base)))
@@ -236,4 +245,84 @@ func c07Eval(c *fw.Ctx, data any) {
 	if c.WantSample() && len(base) < 200 && c.Index%5 == 0 {
 		c.Sample(map[string]any{"base_kind": cs.Side + ":" + kindOf(cs.Recipe), "base": hex.EncodeToString(base), "example_variant_classes": []string{"trunc", "trunc+fix", "byte", "byte-rel", "word16", "word32", "splice", "splice+fix", "extend", "extend+fix", "multi", "random-tail", "2nd:*"}})
 	}
+}
+
+// c07Stream pushes hostile variants (whose header length equals their size, so de-framing stays in step) mixed with
+// valid sentinel frames through a real MessageStream. A panic in a parser goroutine kills the worker (attributed to
+// the case by the parent); a wedged parser or a leaked buffer shows as sentinels missing at quiescence.
+func c07Stream(c *fw.Ctx, cs *c07Case, base []byte) {
+	defer recycleEvery(c, 40)
+	if len(base) > 8000 {
+		base = base[:8]
+		ofFix(base)
+	}
+	r := prng.Derive(c.Seed, 777, uint64(c.Index))
+	var variants [][]byte
+	gen.Hostile(base, r, gen.HostileOpt{Fix: ofFix, MaxPos: 400, Random: 32, MaxExtend: len(base) + 64}, func(class string, in []byte) bool {
+		if len(in) >= 8 && int(binary.BigEndian.Uint16(in[2:])) == len(in) {
+			variants = append(variants, in)
+		}
+		return true
+	})
+	if len(variants) == 0 {
+		return
+	}
+	const want = 140 // well above the number of pool buffers
+	var data []byte
+	sentinels := 0
+	hostile := 0
+	for k := 0; k < want; k++ {
+		v := variants[r.Intn(len(variants))]
+		data = append(data, v...)
+		hostile++
+		if k%3 == 2 {
+			sentinels++
+			e := []byte{4, 2, 0, 8, 0x5e, 0, 0, 0}
+			binary.BigEndian.PutUint16(e[6:], uint16(sentinels))
+			data = append(data, e...)
+		}
+	}
+	conn := sched.NewConn(data)
+	for k := 997; k < len(data); k += 997 {
+		conn.Cuts = append(conn.Cuts, k)
+	}
+	cpu0 := fw.CPUNow()
+	s := startStream(conn, "eager", 0, 0)
+	ok := s.finish()
+	c.Count("streams", 1)
+	c.Count("stream_hostile_frames", int64(hostile))
+	report := func(cls, locus, detail string) {
+		c.ViolationCase("stream:"+typeKind(base), cls, locus, detail, cs)
+	}
+	if !ok {
+		if used := fw.CPUNow() - cpu0; used > fw.CPUBudget {
+			report("hang", "stream-parser", fmt.Sprintf("after %d hostile frames the stream never became quiet: %v of CPU consumed while waiting (a parser goroutine is spinning)", hostile, used))
+			c.Poison()
+			return
+		}
+		c.Inconclusive("stream: quiescence not reached (wall-clock watchdog)")
+		return
+	}
+	got := map[uint16]int{}
+	for _, d := range s.delivered {
+		if h, okh := d.Msg.(*common.Header); okh && !d.Nil && h.Type == 2 && h.Xid>>24 == 0x5e {
+			got[uint16(h.Xid)]++
+		}
+	}
+	missing := 0
+	for k := 1; k <= sentinels; k++ {
+		if got[uint16(k)] == 0 {
+			missing++
+		}
+	}
+	if missing > 0 {
+		report("wedge", "stream-sentinels", fmt.Sprintf("%d of %d valid echo requests sent between %d malformed frames were never delivered although every goroutine is parked: malformed frames wedged the stream (deliveries: %d)", missing, sentinels, hostile, len(s.delivered)))
+	}
+	if s.poolSeen && (s.poolFull != 0 || s.poolEmpty+1 != s.poolCap) {
+		report("wedge", "stream-buffer-pool", fmt.Sprintf("after %d malformed frames the pool holds %d empty and %d full buffers of %d at quiescence: buffers leaked", hostile, s.poolEmpty, s.poolFull, s.poolCap))
+	}
+	if len(s.errs) > 0 {
+		report("wedge", "stream-error", "malformed frames made the stream publish a connection error: "+fmtErrs(s.errs))
+	}
+	c.Count("stream_sentinels_delivered", int64(sentinels-missing))
 }
